@@ -50,6 +50,9 @@ def idle_clock(tier, seed):
             r = c.cmd("XCLAIM", s, "g", "bob", "1000", "1-1")
             res.evaluations += 1
             res.cell("idle", "claim-refused-too-young")
+            if time.monotonic() - t_deliver > 0.9:
+                res.count("idle_rounds_not_judged_machine_stalled")      # the entry may really be a second old by now
+                continue
             if r not in ([], None) and r is not resp.NULL_ARRAY:
                 res.violation("idle/claim-too-young", "entry idle ~300 ms, XCLAIM ... bob 1000 1-1 -> %s, expected nothing" % resp.show(r))
             # old enough for min-idle 200: bob gets it, and the idle clock starts again
@@ -69,10 +72,13 @@ def idle_clock(tier, seed):
                     (t1 - t_claim0) * 1000, owner, idle))
             # a second recovery worker right behind the first: the entry is fresh again and must stay with bob
             r = c.cmd("XCLAIM", s, "g", "carol", "200", "1-1", "JUSTID")
+            stalled = time.monotonic() - t_claim0 > 0.15            # then the entry may really be idle for 200 ms again
             res.evaluations += 1
             res.cell("idle", "second-claim-refused")
             idle, owner, t0, t1 = idle_of(b"1-1")
-            if (r not in ([], None) and r is not resp.NULL_ARRAY) or owner != b"bob":
+            if stalled:
+                res.count("idle_rounds_not_judged_machine_stalled")
+            elif (r not in ([], None) and r is not resp.NULL_ARRAY) or owner != b"bob":
                 res.violation("idle/stolen-after-claim", "bob claimed 1-1 (min-idle 200) a moment ago; carol's XCLAIM ... 200 1-1 -> %s, owner now %r: a freshly claimed entry "
                               "is not idle" % (resp.show(r), owner))
             # the untouched neighbour keeps its clock
